@@ -381,6 +381,24 @@ impl<K: View, V> View for HashMap<K, V> {
     uninterp spec fn view(&self) -> Map<K::V, V>;
 }
 impl<K: View, V> HashMap<K, V> {
+    /// `HashMap::get`
+    #[verifier::external_body]
+    pub fn get(&self, k: &K) -> (r: Option<&V>)
+        ensures r == (if self@.contains_key(k@) { Some(&self@[k@]) } else { None }),
+    { unimplemented!() }
+    /// `HashMap::contains_key` (keys compared by `Eq`, here: by view)
+    #[verifier::external_body]
+    pub fn contains_key(&self, k: &K) -> (r: bool) ensures r == self@.contains_key(k@), { unimplemented!() }
+    /// `HashMap::insert`: the entry is set, the previous value (if any) handed back
+    #[verifier::external_body]
+    pub fn insert(&mut self, k: K, v: V) -> (r: Option<V>)
+        ensures final(self)@ == old(self)@.insert(k@, v), r is Some <==> old(self)@.contains_key(k@), r is Some ==> r->Some_0 == old(self)@[k@],
+    { unimplemented!() }
+    /// `HashMap::remove`: the entry is gone, its value (if any) handed back
+    #[verifier::external_body]
+    pub fn remove(&mut self, k: &K) -> (r: Option<V>)
+        ensures final(self)@ == old(self)@.remove(k@), r is Some <==> old(self)@.contains_key(k@), r is Some ==> r->Some_0 == old(self)@[k@],
+    { unimplemented!() }
     /// `HashMap::get_mut`
     #[verifier::external_body]
     pub fn get_mut(&mut self, k: &K) -> (r: Option<&mut V>)
